@@ -13,8 +13,8 @@ props = sorted(set(props))
 ids = sys.argv[1:] or sorted(os.path.basename(d) for d in glob.glob("/verif/seeded/C*"))
 rc, out = sh("git status --porcelain --untracked-files=no", cwd=REPO)
 if out.strip(): print("REPO DIRTY"); sys.exit(2)
-sh("/verif/check C14 quick >/dev/null")  # make sure the binary is built
-mp = "/verif/seeded/MATRIX.json"
+if "MCAPVET" not in os.environ: sh("/verif/check C14 quick >/dev/null")  # make sure the binary is built
+mp = os.environ.get("MATRIX_OUT", "/verif/seeded/MATRIX.json")
 matrix = json.load(open(mp)) if os.path.exists(mp) else {}
 def run_multi():
     rc, out = sh(f"{MCAPVET} multi {','.join(props)} --repo {REPO} --verif /verif", cwd="/verif")
